@@ -46,7 +46,7 @@ Definition http_obs (k : pst * bytes) : bytes :=
       (if headed g
        then enc_list enc_b (p_start s) ++ [p_version s; p_status s] ++
             enc_list enc_hdr (p_headers s) ++ enc_bool (p_chunked s) ++
-            enc_oz (if done then Some (len (p_body s)) else p_length s)
+            enc_oz (if done then Some (len (p_body s)) else p_length s) ++ enc_bool (persisted s)
        else []) ++
       enc_b (p_body s) ++ enc_list enc_parm (p_parms s) ++ enc_list enc_hdr (p_trails s) ++
       enc_b (snd k)
